@@ -1084,7 +1084,10 @@ def replay_obligation(harness, r, o, vals, seed):
     Hc, last = None, None
     for attempt in range(4):
         try:
-            Hc = run_concrete(harness, r.case, vals, o.choices, seed=seed + attempt, ranges=r.ranges, jitter=1e-13 * 100**attempt)
+            # (a harness may ask for an exact replay - no tie-breaking perturbation of the weights - by putting
+            # "_exact" into the valuation in its `concretise` hook)
+            jit = 0.0 if (vals.get("_exact") and attempt == 0) else 1e-13 * 100**attempt
+            Hc = run_concrete(harness, r.case, {k: v for k, v in vals.items() if k != "_exact"}, o.choices, seed=seed + attempt, ranges=r.ranges, jitter=jit)
             break
         except ConcreteReject as e:
             last = e
